@@ -95,6 +95,11 @@ class Env:
             raise Skip("nonfinite")
         if scale is None:
             scale = R.scale_of(c1, c2)
+        # either direction of the comparison may be the well-conditioned one (t from tau next to t = 0, ...)
+        tol = self.base_tol * factor
+        if opcheck.vec_equiv(obs.system_of(v1), obs.stored(v1), c2, tol, scale, n) or \
+                opcheck.vec_equiv(obs.system_of(v2), obs.stored(v2), c1, tol, scale, n):
+            return True
         return self.eq_cart(what, c1, c2, scale, factor, n)
 
     def eq_num(self, what, x, y, scale=1, factor=1):
